@@ -121,7 +121,7 @@ def comment(rng):
         return "//" + rng.choice(["", " ", "/"]) + w + "\n"
     if k == 1:
         w = w.replace("*", "").replace("/", "")
-        return "/*" + rng.choice([" ", "*", "\n", " \n "]) + w + rng.choice(["", " ", "\n"]) + "*/"
+        return "/*" + rng.choice([" ", "*", "\n", " \n ", "", ""]) + w + rng.choice(["", " ", "\n"]) + "*/"
     return ["##", "# ", "#-"][k - 2] + w.replace("/", "").replace("*", "") + "\n"
 
 
@@ -365,7 +365,9 @@ def run(ctx):
               "'", "'4", "TR(2)", "@5;", "@(5)", "Tempo(120)", "TEMPO=90;", "TrackSync;", "KF+(fc)", "TIME(2:1:0)", "ResetGM;", "y7,100;", "M(64)",
               "PRINT(1)", "{c d}4", "Sub{c}", "#M={c};", "v++"]
     lays = [" ", "\t", "\r", "\n", "|", ";", "　", "\r\n", "\n\n", " // x\n", " /* x */ ", " ## x\n", " # x\n", " #- x\n", " /// x\n",
-            " /** x */ ", "\n// ^\n", " /*\n\n*/ ", ";;", "||", " | ", "\n# c d e\n", "\n#-----\n", "\n##\n"]
+            " /** x */ ", "\n// ^\n", " /*\n\n*/ ", ";;", "||", " | ", "\n# c d e\n", "\n#-----\n", "\n##\n",
+            # comments with no text at all
+            "/**/", " /**/ ", "\n/**/\n", "/***/", "/****/", "/* */", "//\n", " ///\n", "\n#-\n", " ##\n", "/**//**/", "/**/ /**/"]
     for f in firsts:
         pre = "[2 c " if f in (":", "]") else ("'c" if f in ("'4",) else "")
         post = " ]" if f in ("[2", ":") else ("'" if f == "'" else "")
